@@ -10,6 +10,7 @@
 package pbcmpl
 
 import (
+	"bytes"
 	"io"
 
 	"github.com/openacid/errors"
@@ -119,14 +120,23 @@ func Unmarshal(r io.Reader, msg proto.Message) (int64, string, error) {
 		return n, ver, errors.WithStack(ErrInvalidHeaderSize)
 	}
 
-	b := make([]byte, hi.GetBodySize())
-	nbody, err := io.ReadFull(r, b)
-	n += int64(nbody)
+	bodySize := hi.GetBodySize()
+	if bodySize < 0 {
+		return n, ver, errors.WithStack(ErrInvalidBodySize)
+	}
+
+	// do not trust bodySize for allocation: grow with the bytes actually read
+	b := &bytes.Buffer{}
+	nbody, err := io.CopyN(b, r, bodySize)
+	n += nbody
 	if err != nil {
+		if err == io.EOF && nbody > 0 {
+			err = io.ErrUnexpectedEOF
+		}
 		return n, ver, errors.WithStack(err)
 	}
 
-	err = proto.Unmarshal(b, msg)
+	err = proto.Unmarshal(b.Bytes(), msg)
 	return n, ver, errors.WithStack(err)
 }
 
